@@ -4,6 +4,7 @@
 
 pub mod alloc;
 pub mod ctx;
+pub mod fuzzing;
 pub mod gen;
 pub mod iana;
 pub mod monitors;
